@@ -17,6 +17,7 @@ class World:
         self.cls_id = {c: i + 10 for i, c in enumerate(self.classes)}
         self.extra_classes = {}
         self._field_cache = {}
+        self._abstract = {}
         self.type_names = {}
         for c in self.classes:
             self.type_names.setdefault(c.__name__, c)
@@ -28,9 +29,39 @@ class World:
             self.cls_id[c] = 1000 + len(self.cls_id)
         return self.cls_id[c]
 
-    def subclasses(self, c):
-        """all known classes that are c or a subclass of c"""
-        return [d for d in list(self.cls_id) if isinstance(d, type) and issubclass(d, c)]
+    def subclasses(self, c, concrete_only=True):
+        """all known (concrete) classes that are c or a subclass of c"""
+        out = [d for d in list(self.cls_id) if isinstance(d, type) and issubclass(d, c)]
+        if concrete_only:
+            conc = [d for d in out if not self.is_abstract(d)]
+            return conc
+        return out
+
+    def is_abstract(self, cls):
+        """a class is abstract when some method it would run is just `raise NotImplementedError()`"""
+        if cls in self._abstract:
+            return self._abstract[cls]
+        import ast as _ast, types as _types
+        res = False
+        if not repo.in_repo(cls):
+            self._abstract[cls] = False
+            return False
+        for name in dir(cls):
+            try:
+                a = inspect.getattr_static(cls, name)
+            except AttributeError:
+                continue
+            if isinstance(a, _types.FunctionType) and repo.in_repo(a):
+                try:
+                    node = repo.func_ast(a)
+                except Exception:
+                    continue
+                body = [x for x in node.body if not (isinstance(x, _ast.Expr) and isinstance(x.value, _ast.Constant))]
+                if len(body) == 1 and isinstance(body[0], _ast.Raise) and 'NotImplementedError' in _ast.dump(body[0]):
+                    res = True
+                    break
+        self._abstract[cls] = res
+        return res
 
     def isinstance_term(self, ref, c):
         subs = self.subclasses(c)
@@ -65,7 +96,7 @@ class World:
         if isinstance(t, Ty):
             return t
         if isinstance(t, str):
-            env = {'int': INT, 'bool': BOOL, 'float': REAL, 'str': STR, 'None': NONE,
+            env = {'Any': ANY, 'int': INT, 'bool': BOOL, 'float': REAL, 'str': STR, 'None': NONE,
                    'Opt': lambda x: self._opt(self.parse_type(x)),
                    'List': lambda x: TList(self.parse_type(x)),
                    'Seq': lambda x: TSeq(self.parse_type(x)),
@@ -75,7 +106,8 @@ class World:
                    'Set': lambda k: TSet(self.parse_type(k)),
                    'Obj': lambda name, nullable=False: TObj(self.cls_by_name(name), nullable),
                    'Func': TFunc()}
-            return eval(t, {'__builtins__': {}}, env)
+            r = eval(t, {'__builtins__': {}}, env)
+            return NONE if r is None else r
         return self.type_of_hint(t)
 
     def _opt(self, t):
@@ -139,6 +171,11 @@ class World:
             raise Unsupported('type variable %r needs an explicit type in the contract' % (h,))
         raise Unsupported('type hint %r' % (h,))
 
+    def _alloc_fact(self, v, heap):
+        if is_ref(v.ty):
+            return z3.Or(v.term == 0, heap.is_alloc(v.term))
+        return z3.BoolVal(True)
+
     def param_types(self, fn, contract):
         """name -> Ty for the parameters of fn (contract overrides, then annotations)."""
         fn = getattr(fn, '__func__', fn)
@@ -153,6 +190,8 @@ class World:
             except Exception:
                 owner = None
         for i, (name, p) in enumerate(sig.parameters.items()):
+            if p.kind == p.VAR_POSITIONAL:
+                continue
             if contract is not None and name in contract.types_d:
                 out[name] = self.parse_type(contract.types_d[name])
             elif i == 0 and name == 'self' and owner is not None:
@@ -190,10 +229,14 @@ class World:
             return NONE
         raise Unsupported('no return type for ' + repo.qualname_of(fn))
 
-    def type_facts(self, v, heap):
-        """Assumptions that hold of every well-typed value: refs allocated, dynamic class within static class."""
+    def type_facts(self, v, heap, entry_heap=None):
+        """Assumptions that hold of every well-typed value: refs allocated, dynamic class within static class.
+        A value read from a heap array that has not been written since entry was allocated on entry."""
         out = []
         ty = v.ty
+        if entry_heap is not None and v.py == 'H0':
+            heap_alloc = entry_heap
+            out.append(self._alloc_fact(v, entry_heap))
         if isinstance(ty, TObj):
             ok = z3.And(v.term > 0, heap.is_alloc(v.term), self.isinstance_term(v.term, ty.cls))
             out.append(z3.Or(v.term == 0, ok) if ty.nullable else ok)
